@@ -19,7 +19,13 @@ pub enum Val {
     Str(String),
     L(Vec<Vec<u8>>),
     LL(Vec<Vec<Vec<u8>>>),
+    /// a whole record (the EIP-778 example) passed as the value: `insert(k, &enr, key)`
+    Rec,
+    /// a list of two records passed as the value
+    RecList,
 }
+
+pub const EXAMPLE_RECORD_HEX: &str = "f884b8407098ad865b00a582051940cb9cf36836572411a47278783077011599ed5cd16b76f2635f4e234738f30813a89eb9137e3e3df5266e3a1f11df72ecf1145ccb9c01826964827634826970847f00000189736563703235366b31a103ca634cae0d49acb401d8a4c6b6fe8c55b70d115bf400769cc1400f3258cd31388375647082765f";
 
 impl Val {
     /// canonical RLP by RefRLP
@@ -48,6 +54,11 @@ impl Val {
                 }
                 rlp::enc_list_payload(&p)
             }
+            Val::Rec => crate::util::unhex(EXAMPLE_RECORD_HEX).unwrap(),
+            Val::RecList => {
+                let r = crate::util::unhex(EXAMPLE_RECORD_HEX).unwrap();
+                rlp::enc_list_payload(&[r.clone(), r].concat())
+            }
         }
     }
 }
@@ -71,6 +82,8 @@ pub enum Op {
     SetSeq(u64),
     Insert(Vec<u8>, Val),
     InsertRaw(Vec<u8>, Vec<u8>),
+    /// insert_raw_rlp of `depth` nested lists (generated at call time: the value can be megabytes)
+    InsertRawNested(Vec<u8>, u32),
     SetIp(IpAddr),
     SetUdp4(u16),
     SetUdp6(u16),
@@ -97,7 +110,7 @@ impl Op {
         match self {
             Op::SetSeq(_) => "set_seq",
             Op::Insert(..) => "insert",
-            Op::InsertRaw(..) => "insert_raw_rlp",
+            Op::InsertRaw(..) | Op::InsertRawNested(..) => "insert_raw_rlp",
             Op::SetIp(_) => "set_ip",
             Op::SetUdp4(_) => "set_udp4",
             Op::SetUdp6(_) => "set_udp6",
@@ -123,7 +136,7 @@ impl Op {
     pub fn family(&self) -> &'static str {
         match self {
             Op::SetSeq(_) => "set_seq",
-            Op::Insert(..) | Op::InsertRaw(..) | Op::SetClientInfo(..) | Op::SetPublicKey(_) => "insert",
+            Op::Insert(..) | Op::InsertRaw(..) | Op::InsertRawNested(..) | Op::SetClientInfo(..) | Op::SetPublicKey(_) => "insert",
             Op::SetIp(_) | Op::SetUdp4(_) | Op::SetUdp6(_) | Op::SetTcp4(_) | Op::SetTcp6(_) => "typed-setter",
             Op::RemoveUdp4 | Op::RemoveUdp6 | Op::RemoveTcp | Op::RemoveTcp6 | Op::RemoveKey(_) => "remove_key",
             Op::SetUdpSocket(_) | Op::SetTcpSocket(_) => "set_socket",
@@ -150,6 +163,7 @@ pub enum BEntry {
     Udp6(u16),
     Add(Vec<u8>, Val),
     AddRaw(Vec<u8>, Vec<u8>),
+    AddRawNested(Vec<u8>, u32),
     Client(String, String, Option<String>),
 }
 
@@ -407,6 +421,12 @@ pub fn predict(seq: u64, pairs: &Pairs, op: &Op, m: &ModelCtx) -> Pred {
             let prev = insert(&mut work, k, raw.clone());
             ret = if k.as_slice() == signer.slot() { Ret::Any } else { Ret::PrevRaw(prev) };
         }
+        Op::InsertRawNested(k, depth) => {
+            let raw = rlp::nested_lists(*depth);
+            judge(k, &raw, &mut must, &mut may);
+            let prev = insert(&mut work, k, raw);
+            ret = if k.as_slice() == signer.slot() { Ret::Any } else { Ret::PrevRaw(prev) };
+        }
         Op::SetIp(ip) => {
             let (k, raw) = ip_raw(ip);
             let prev = insert(&mut work, k, raw);
@@ -559,6 +579,9 @@ pub fn predict_build(entries: &[BEntry], signer: &MSigner) -> Pred {
             }
             BEntry::AddRaw(k, raw) => {
                 work.insert(k.clone(), raw.clone());
+            }
+            BEntry::AddRawNested(k, depth) => {
+                work.insert(k.clone(), rlp::nested_lists(*depth));
             }
             BEntry::Client(n, v, b) => {
                 let mut l = vec![n.as_bytes().to_vec(), v.as_bytes().to_vec()];
